@@ -312,7 +312,7 @@ func runC15(c *Ctx) error {
 	c.Rep.Rule = "import graphs of 1..12 packages (random fan-in/out, missing stdlib-like imports, 1-3 files per package, vendor/ and shortened-path placement, _test.go and //go:build files) incl. graphs with a back edge or self-import, and every graph on <= 3 nodes; distinct = distinct graph line; non-trivial = at least 3 packages or a cycle"
 	n := 400
 	if c.Thorough() {
-		n = 20000
+		n = 60000
 	}
 	var lines, impl []string
 	add := func(g c15Graph, sample bool) {
